@@ -32,6 +32,9 @@ pub struct SearchStats {
     pub by_kind: BTreeMap<String, u64>,
     pub bound: u32,
     pub capped: bool,
+    /// executions thrown away because the environment did not reproduce their prefix (see `search`)
+    #[serde(default)]
+    pub discarded_replays: u64,
 }
 
 /// Explores every choice vector with at most `bound` non-default choices.
@@ -53,17 +56,30 @@ pub fn search(
             stats.capped = true;
             break;
         }
-        let r = run(&prefix);
-        stats.executions += 1;
-        if let Some(d) = &r.diverged {
-            machinery_error(&format!("replayed prefix diverged: {d} (prefix {prefix:?})"));
-        }
-        // the executed choices must start with the prefix
-        for (i, c) in prefix.iter().enumerate() {
-            if r.trace.get(i).map(|p| p.chosen) != Some(*c) {
-                machinery_error(&format!("execution did not reach choice point {i} of its prefix {prefix:?}"));
+        // A replayed prefix must be followed exactly. The simulation owns every choice, but
+        // the loopback TCP stack underneath is the real one: on a saturated machine the kernel
+        // may hand a segment over a moment later (softirq work deferred to ksoftirqd), which
+        // shows as one ready descriptor fewer at some epoll_wait. Such an execution is
+        // discarded and run again; a prefix that cannot be followed in 5 attempts is a
+        // machinery error, never a verdict.
+        let mut attempt = 0;
+        let r = loop {
+            let r = run(&prefix);
+            stats.executions += 1;
+            let problem = match &r.diverged {
+                Some(d) => Some(format!("replayed prefix diverged: {d} (prefix {prefix:?})")),
+                None => prefix.iter().enumerate().find(|(i, c)| r.trace.get(*i).map(|p| p.chosen) != Some(**c)).map(|(i, _)| format!("execution did not reach choice point {i} of its prefix {prefix:?}")),
+            };
+            match problem {
+                None => break r,
+                Some(p) if attempt >= 4 => machinery_error(&p),
+                Some(_) => {
+                    attempt += 1;
+                    stats.discarded_replays += 1;
+                    std::thread::sleep(std::time::Duration::from_millis(20 * attempt));
+                }
             }
-        }
+        };
         stats.choice_points_seen += r.trace.len() as u64;
         stats.max_points_in_one_execution = stats.max_points_in_one_execution.max(r.trace.len() as u64);
         for p in &r.trace {
